@@ -1,6 +1,7 @@
 """Rule infrastructure: obligations, per-config context with role locators."""
 import hir
 from hir import walk, calls, rel, fmt
+from absint import is_streamlike_ty as absint_streamlike
 from absint import (FnAnalysis, compute_summaries, PathExplosion, affine, aff_str, aff_eq, aff_sub, aff_add, tstr, leaves,
                     subterms, V, C)
 
@@ -68,19 +69,87 @@ class Ctx:
                     anchors.add(f["path"])
                 if n["k"] == "Match" and any(_pat_ctor(a["pat"], "serde_json::value::Value::Object") for a in n["arms"]):
                     anchors.add(f["path"])
+        # every function a rule addresses by its role keeps its identity (it is analysed as a unit and its callers see a call to it)
+        anchors |= self._role_anchor_paths()
         ok = set()
+        pure = set()
         for f in facts.user_fns():
             p = f["path"]
             if f["vis"] == "pub" or p in anchors or p in reach(p):
                 continue
-            s = self.summaries.get(p, {})
-            if any(s.values()):
-                continue
-            if f["async"] or "Future<" in f["ret"]:
-                continue
             ok.add(p)
+            s = self.summaries.get(p, {})
+            if not any(s.values()):
+                pure.add(p)
         self.inlinable = ok
+        self.inlinable_pure = pure
         facts.no_inline = lambda fn: fn in ok
+
+    def _store_roles(self):
+        if "store_roles" not in self._roles:
+            r = None
+            for a in self.facts.adts.values():
+                if a["kind"] != "struct":
+                    continue
+                maps = [f for f in a["variants"][0]["fields"] if "HashMap<" in f["ty"]]
+                if len(maps) >= 3:
+                    rr = {}
+                    for f in maps:
+                        if "HashSet<" in f["ty"]:
+                            rr["ids"] = f["name"]
+                        elif "Vec<u8>" in f["ty"]:
+                            rr["data"] = f["name"]
+                        elif "TileManagerTile" in f["ty"]:
+                            rr["tiles"] = f["name"]
+                    if len(rr) == 3:
+                        r = rr
+            self._roles["store_roles"] = r
+        return self._roles["store_roles"]
+
+    def _role_anchor_paths(self):
+        """syntactic approximations of the role locators used by the rules (kept here so that the inline policy exists before any analysis runs)"""
+        facts = self.facts
+        out = set()
+        HM = "std::collections::hash::map::HashMap::<K, V, S, A>::"
+        for f in facts.user_fns():
+            cs = [c for c in calls(f["body"])]
+            names = [c["fn"] for c in cs]
+            body = f["body"]
+            def has(adt):
+                return self.has_struct(f, adt)
+            # archive writer / opener / walker / factories / directory codec / root writers / layout / lazy fetch / header io / store mutators / json readers
+            if has("header::Header") and any(n.startswith("header::Header::to_") and "writer" in n for n in names):
+                out.add(f["path"])
+            if has("pmtiles::PMTiles") and any(n.startswith("header::Header::from_") and "reader" in n for n in names):
+                out.add(f["path"])
+            if f["path"] in names and any(n.startswith("directory::Directory::from_") and "reader" in n for n in names):
+                out.add(f["path"])
+            if "Box<" in f["ret"] and "dyn " in f["ret"]:
+                out.add(f["path"])
+            if any(n.startswith("integer_encoding::") for n in names):
+                out.add(f["path"])
+            if ("Vec<u8>" in f["ret"]) and any(n.startswith("directory::Directory::to_") and "writer" in n for n in names) and any(absint_streamlike(p.get("ty") or "") for p in f["params"]):
+                out.add(f["path"])
+            if has("tile_manager::FinishResult"):
+                out.add(f["path"])
+            if any(n in ("std::io::Read::read_exact", "futures_util::io::AsyncReadExt::read_exact") for n in names):
+                out.add(f["path"])
+            if (f.get("self_ty") or "") == "header::Header" and any(absint_streamlike(p.get("ty") or "") for p in f["params"]):
+                out.add(f["path"])
+            if any(n.startswith("serde_json::de::from_") for n in names):
+                out.add(f["path"])
+            if "TileManager" in (f.get("self_ty") or ""):
+                # the store's add / remove / register functions (same definitions as rules_store: bytes-map insert, id-map remove, OffsetLength constructor)
+                roles = self._store_roles()
+                if roles:
+                    def on_field(c, meth, fld):
+                        return c["fn"] == HM + meth and c["k"] == "MCall" and c["recv"]["k"] == "Field" and c["recv"]["name"] == fld
+                    if any(on_field(c, "insert", roles["data"]) for c in cs) or any(on_field(c, "remove", roles["tiles"]) for c in cs) or \
+                            any(c["fn"] == "tile_manager::TileManagerTile::OffsetLength" for c in cs):
+                        out.add(f["path"])
+            if any("xy2h_discrete" in n or "h2xy_discrete" in n for n in names):
+                out.add(f["path"])
+        return out
 
     def fa(self, fn):
         p = fn["path"]
